@@ -89,6 +89,9 @@ EXH_CONSUMERS = [
 EXH_LIMITS = (1, 2, 4)
 
 
+# mechanism strings name the symptom class and the read *code path* (iterators and read(-1) share the path of the
+# method they wrap), never the particular program
+KIND_ALIAS = {"iter_chunked": "read", "readall": "read", "iter_any": "readany", "iter_chunks": "readchunk", "iter_line": "readline"}
 STRADDLE = "readuntil:separator-split-across-received-pieces-not-found"
 EXC_LOST = "exception:lost-when-set-between-wakeup-and-reader-run"
 
@@ -556,6 +559,7 @@ class World:
         name = op[0]
         self.dirty = True
         ctx = "other"
+        before = m.paused
         if name == "D":
             m.feed(op[1])
             ctx = "feed"
@@ -579,7 +583,8 @@ class World:
             # the model consumes a whole call at once, the real reader piece by piece: during a re-entrant feed the
             # real buffer can only be fuller than the model's, so only "must be paused" is decidable here
             if exp and not snap:
-                self.pause_violation(ctx, exp, snap, op)
+                # expected to be paused already before this op: the resume that let the producer in was premature
+                self.pause_violation("consume" if before else ctx, exp, snap, op)
             elif snap and not exp:
                 m.paused = None
         elif exp != snap:
@@ -871,7 +876,7 @@ class World:
         return "wrong-bytes"
 
     def compare(self, call, out, obs, pos0) -> None:
-        kind = call.kind
+        kind = KIND_ALIAS.get(call.kind, call.kind)
         m = self.model
         what = f"op={self.call_op} limit={self.limit} gated={self.gated}"
         if obs is None:
@@ -884,8 +889,9 @@ class World:
                     f"cannot complete on the buffered data, waits again and never sees the exception",
                 )
             else:
-                why = "at-eof" if m.eof else "with-data-buffered" if m.buffered else "other"
-                self.violation(f"{kind}:still-blocked:{why}", f"{what}: expected {str(out)[:120]}, reader still blocked")
+                why = "at-eof" if m.eof else "with-data-buffered" if m.buffered else "at-chunk-end" if m.bounds else "other"
+                # the waiter is shared by all read methods: one mechanism per missed wake-up cause, not per method
+                self.violation(f"wakeup:reader-still-blocked:{why}", f"{what}: expected {str(out)[:120]}, reader still blocked")
             return
         if out is BLOCKED:
             v = obs[1] if obs[0] == "done" else None
@@ -950,6 +956,12 @@ class World:
     def boundary_checks(self) -> None:
         if self.viol:
             return
+        try:
+            self._boundary_checks()
+        except C08InvariantBroken as e:  # the public accessors used below are contract-wrapped too
+            self.violation("icontract:" + e.name, f"class invariant broken at an op boundary: {str(e)[:300]}")
+
+    def _boundary_checks(self) -> None:
         m = self.model
         s = self.stream
         self.hook()
@@ -1502,6 +1514,10 @@ def shards(tier, seed):
         nex, maxlen, nrand, per, nic = 13, 5, 2, 450, 1
     else:
         nex, maxlen, nrand, per, nic = 96, 6, 24, 1500, 8
+    import os
+
+    # self-test convenience only: a mutant caught with a shorter exhaustive bound is a fortiori caught by the tier
+    maxlen = int(os.environ.get("C08_SELFTEST_MAXLEN", maxlen))
     for i in range(nex):
         out.append({"kind": "exhaustive", "sub": i, "of": nex, "maxlen": maxlen})
     for i in range(nrand):
